@@ -52,7 +52,7 @@ fn exact_build(rep: &mut Report) {
     type T = Ex;
     for li in [0usize, 1, 2] {
         let lat = &ex::lattices()[li];
-        let kmax = lat.reach().min(rep.pick(4, 6));
+        let kmax = lat.reach().min(rep.pick(5, 7));
         let ks: Vec<i64> = (-kmax..=kmax).collect();
         let n = ks.len();
         set_lattice(Some(li));
@@ -118,7 +118,7 @@ fn exact_extract(rep: &mut Report) {
 }
 
 fn float_build<T: Tier + Dom<M = Sh>>(rep: &mut Report) {
-    let n = rep.pick(7, 15);
+    let n = rep.pick(11, 21);
     let grid: Vec<f64> = (0..n).map(|j| -3.3 + 6.6 * j as f64 / (n - 1) as f64).collect();
     rep.cases(
         "build/native",
@@ -157,9 +157,9 @@ fn mat_of_q(q: [f64; 4]) -> [[f64; 3]; 3] {
 fn float_extract<T: Tier + Dom<M = Sh>>(rep: &mut Report) {
     // quaternions from Euler grids with prescribed sin(y), plus the rational unit quaternions
     let sines: Vec<f64> = [0.0, 0.5, 0.99, 0.9979, 0.99799, 0.99801, 0.9981, 0.999, 1.0].iter().flat_map(|s| [*s, -*s]).skip(1).collect();
-    let nxz = rep.pick(7, 15);
+    let nxz = rep.pick(9, 21);
     let xz: Vec<f64> = (0..nxz).map(|j| -3.0 + 6.0 * j as f64 / (nxz - 1) as f64).collect();
-    let uq = alphabet::uq(rep.pick(0, 1));
+    let uq = alphabet::uq(1);
     let n1 = sines.len() * nxz * nxz;
     rep.cases(
         "extract/native",
